@@ -51,8 +51,9 @@ def run(ctx):
     ctx.check_property_file()
     thorough = ctx.tier == "thorough"
     ws = gen.Workspace(ctx)
-    ngr = 6 if not thorough else 24
-    grammars = [cfggen.family(i) for i in (10, 0, 1, 7)] + [cfggen.gen_cfg(ctx.rng, with_error=(ctx.rng.random() < 0.3)) for _ in range(60)]
+    ngr = 6 if not thorough else 25
+    # families, (thorough tier: one grammar with 300 token ids, large tables through gob + gzip under -zip), random grammars
+    grammars = [cfggen.family(i) for i in (10, 0, 1, 7)] + ([cfggen.big_cfg(ctx.rng, 300)] if thorough else []) + [cfggen.gen_cfg(ctx.rng, with_error=(ctx.rng.random() < 0.3)) for _ in range(60)]
     htmpl = open(os.path.join(vlib.ROOT, "harness", "h.go.tmpl")).read()
     dtmpl = open(os.path.join(vlib.ROOT, "harness", "zz_verif_dump.go.tmpl")).read()
     subsets = [list(c) for k in range(len(RUN_FLAGS) + 1) for c in itertools.combinations(RUN_FLAGS, k)]
